@@ -79,6 +79,20 @@ def udpOp (u : USt) (op : String) : Option USt :=
         | none => none
       else none
     | _ => none
+  | "y" =>
+    -- a datagram to an address where no socket is bound (the harness uses another local address with the
+    -- port of socket j): nothing is queued anywhere
+    match parseSend rest with
+    | some (i, some j, n, seed) =>
+      if j < u.w.socks.length ∧ n ≤ 1000 ∧ u.w.kmax = kMax4 then
+        match u.w.socks[i]? with
+        | some s =>
+          if s.kind = .raw ∧ s.alive then
+            some { u with w := rawSend u.w i (1000000 + j) (udpPayload n seed), sts := "S" :: u.sts }
+          else none
+        | none => none
+      else none
+    | _ => none
   | "x" =>
     match parseSend rest with
     | some (i, some j, n, seed) =>
